@@ -63,13 +63,19 @@ def plane3_params(pts):
     length = np.linalg.norm(nrm)
     nrm = nrm / length
     dval = float(nrm @ p1)
-    eps = 1e-12
+    # "zero" means zero in the arithmetic of the card (decimal numbers): the
+    # computed values carry a rounding error that grows as the triangle gets
+    # thinner and as the points get farther from the origin
+    size = max(np.linalg.norm(p) for p in (p1, p2, p3))
+    l12, l13 = np.linalg.norm(p2 - p1), np.linalg.norm(p3 - p1)
+    eps = 1e-13 * max(1.0, (l12 * l13 + size * (l12 + l13)) / length)
+    deps = eps * max(1.0, size)
     flip = False
-    if abs(dval) > eps:
+    if abs(dval) > max(deps, 1e-12):
         flip = dval < 0           # origin must give A*0+..-D < 0  => D > 0
-    elif abs(nrm[2]) > eps:
+    elif abs(nrm[2]) > max(eps, 1e-12):
         flip = nrm[2] < 0
-    elif abs(nrm[1]) > eps:
+    elif abs(nrm[1]) > max(eps, 1e-12):
         flip = nrm[1] < 0
     else:
         flip = nrm[0] < 0
